@@ -154,6 +154,9 @@ func checkC01(c CaseGraph) (*vkit.Failure, vkit.Meta) {
 	if priorFailed {
 		m.Labels = append(m.Labels, "earlier-run-on-same-runnable-failed")
 	}
+	if edgeBesideBranch(c.Spec) {
+		m.Labels = append(m.Labels, "edge-beside-branch-to-same-successor")
+	}
 	if ref != nil {
 		chainStruct := false
 		for _, st := range c.Spec.Stages {
@@ -265,4 +268,26 @@ func TestC01(t *testing.T) {
 
 func TestC01Replay(t *testing.T) {
 	vkit.Replay(t, "C01", checkC01)
+}
+
+// edgeBesideBranch: some node has a plain edge and a branch that both lead to the same successor.
+func edgeBesideBranch(sp *gkit.Spec) bool {
+	if sp == nil {
+		return false
+	}
+	for _, b := range sp.Branches {
+		for _, t := range b.Targets {
+			for _, e := range sp.Edges {
+				if e.From == b.From && e.To == t {
+					return true
+				}
+			}
+		}
+	}
+	for i := range sp.Nodes {
+		if sp.Nodes[i].Sub != nil && edgeBesideBranch(sp.Nodes[i].Sub) {
+			return true
+		}
+	}
+	return false
 }
